@@ -249,9 +249,22 @@ def expand_words(r):
     return rewrite(r, pre=pre)
 
 
+_NORM = {}
+
+
 def norm(r, whole_values=True):
-    r = canon_tests(expand_words(r))
-    return whole(r) if whole_values else r
+    if r is None or is_unknown(r) or isinstance(r, tuple):
+        return r if not isinstance(r, tuple) else tuple(norm(x, whole_values) for x in r)
+    k = (r.n.key(), r.d.key(), whole_values)
+    out = _NORM.get(k)
+    if out is None:
+        out = canon_tests(expand_words(r))
+        if whole_values:
+            out = whole(out)
+        if len(_NORM) > 20000:
+            _NORM.clear()
+        _NORM[k] = out
+    return out
 
 
 def same(a, b, whole_values=True):
@@ -680,8 +693,11 @@ class Walker:
         self.bound = {}           # id(followed FunctionDef) -> {parameter: value} of its (last) call
         self._cells = []          # subscript stores of followed callees
         self.all_inits = []       # (buffer name, creating value, statement)
-        self.table = _method_table(ctx, rel, cls)
-        self.effects = _file_effects(self.table)
+        cache = ctx.__dict__.setdefault("_c11_tables_fx", {})
+        if (rel, cls) not in cache:
+            tb = _method_table(ctx, rel, cls)
+            cache[(rel, cls)] = (tb, _file_effects(tb))
+        self.table, self.effects = cache[(rel, cls)]
         env = dict(env or {})
         a = fn.args
         for x in a.posonlyargs + a.args + a.kwonlyargs + ([a.vararg] if a.vararg else []) + ([a.kwarg] if a.kwarg else []):
